@@ -40,7 +40,7 @@ def floors(tier):
     return {"evaluations": 9000, "distinct": 9000,
             "counters": {"twin_calls": 3000, "rejections_observed": 1500, "growth_cases": 200, "iteration_calls": 9000, "a1_spellings_noncanonical": 80,
                          "negative_positions": 500, "beyond_limit_positions": 300, "large_growth_cases": 2, "contract:a1_inverse.parse": 1000,
-                         "history_position_calls": 5000, "history_structural_ops": 1500, "history_repeated_positions": 2500}}
+                         "history_position_calls": 5000, "history_structural_ops": 1500, "history_repeated_positions": 2500, "history_calls_with_marked_references": 2000}}
 
 
 SHAPES = [(3, 3), (1, 1), (12, 8)]
@@ -496,8 +496,12 @@ def history_case(case, rec):
             method = "cell"  # outside now: both forms must raise IndexError
         else:
             method = rng.choice(["cell", "cell", "write", "style", "format", "border"])
-        name = a1.cell_name(r, c)
-        log.append([method, r, c])
+        # the A1 twin spells the position with any of the four '$' forms (a repeated position keeps turning up in all of them)
+        ra, ca = rng.random() < .3, rng.random() < .3
+        name = a1.cell_name(r, c, ra, ca)
+        if ra or ca:
+            rec.count("history_calls_with_marked_references")
+        log.append([method, r, c, name])
 
         def call(t, st, pos):
             with warnings.catch_warnings():
